@@ -170,6 +170,8 @@ def run(ctx: common.Run):
     check_moment_channels(ctx, cirq, n)
     check_noise_models(ctx, cirq, max(10, n // 3))
     check_noisy_runs(ctx, cirq, max(12, n // 3))
+    check_virtual_moments(ctx, cirq, max(15, n // 3))
+    check_insertion_model(ctx, cirq, 60 if ctx.tier == 'quick' else 1500)
     check_thermal(ctx, cirq, max(10, n // 3))
 
 
@@ -387,6 +389,104 @@ def check_noise_models(ctx, cirq, n):
                 ctx.report_witness('noise:constant-structure', 'ConstantQubitNoiseModel does not add the channel on every system qubit after every moment',
                                    {'lines': [{'circuit': repr(circuit), 'channel': repr(ch)}], 'impl_out': [repr(noisy)], 'spec_out': ['moment, then channel on all qubits'],
                                     'theorem_or_correspondence': 'noise_model_defaults'})
+
+
+def check_virtual_moments(ctx, cirq, n):
+    """ConstantQubitNoiseModel / noise=<channel>: the channel follows every moment on every system qubit, except moments made only of
+    virtual (VirtualTag) operations; one virtual operation next to physical ones does not switch the noise of that moment off"""
+    rng = ctx.substream('virtual')
+    for it in range(n):
+        qs = cirq.LineQubit.range(rng.choice([2, 3]))
+        moments, expect_noise = [], []
+        for _ in range(rng.randint(2, 5)):
+            kind = rng.choice(['physical', 'physical', 'mixed', 'virtual'])
+            ops = []
+            for q in qs:
+                if rng.random() < 0.3 and ops and moments:
+                    continue  # (the first moment touches every qubit: the system is the register of the circuit)
+                op = rng.choice([cirq.H, cirq.X, cirq.Z ** 0.5, cirq.Y ** 0.25])(q)
+                if kind == 'virtual' or (kind == 'mixed' and rng.random() < 0.5):
+                    op = op.with_tags(cirq.VirtualTag())
+                ops.append(op)
+            if kind == 'mixed' and ops and all(cirq.VirtualTag() in o.tags for o in ops):
+                ops[0] = ops[0].untagged
+            if kind == 'mixed' and ops and not any(cirq.VirtualTag() in o.tags for o in ops):
+                ops[-1] = ops[-1].with_tags(cirq.VirtualTag())
+                if len(ops) == 1:
+                    ops.append(cirq.X([q for q in qs if q not in ops[0].qubits][0]))
+            moments.append(cirq.Moment(ops))
+            expect_noise.append(not (ops and all(cirq.VirtualTag() in o.tags for o in ops)))
+        circuit = cirq.Circuit(moments)
+        ch = rng.choice([cirq.amplitude_damp(0.3), cirq.bit_flip(0.2), cirq.depolarize(0.1)])
+        model = cirq.ConstantQubitNoiseModel(ch)
+        want = cirq.Circuit()
+        for m, noisy_after in zip(moments, expect_noise):
+            want.append(m, strategy=cirq.InsertStrategy.NEW_THEN_INLINE)
+            if noisy_after:
+                want.append(cirq.Moment(ch.on(q) for q in qs), strategy=cirq.InsertStrategy.NEW_THEN_INLINE)
+        ctx.count('check', 'noise-model:virtual-moments')
+        ctx.case(['virtual', repr(circuit), repr(ch)], True)
+        rep = {'lines': [{'circuit': repr(circuit), 'channel': repr(ch)}], 'theorem_or_correspondence': 'noise_model_defaults (virtual moments)'}
+        dims = [2] * len(qs)
+        rho0 = np.zeros((2 ** len(qs),) * 2, dtype=complex)
+        rho0[0, 0] = 1
+        out = ctx.driver.ask([{'p': 'C02', 'op': 'dm', 'shape': dims, 'rho': [common.c2j(z) for z in rho0.reshape(-1)], 'ops': lean_ops(cirq, want, list(qs))}])[0]
+        want_rho = rho_of(out)
+        for name, f in (('simulate(noise=channel)', lambda: cirq.DensityMatrixSimulator(noise=ch, dtype=np.complex128).simulate(circuit, qubit_order=qs).final_density_matrix),
+                        ('with_noise', lambda: cirq.DensityMatrixSimulator(dtype=np.complex128).simulate(circuit.with_noise(model), qubit_order=qs).final_density_matrix)):
+            got = f()
+            if not np.allclose(got, want_rho, atol=1e-6):
+                n_noise = sum(1 for o in cirq.Circuit(model.noisy_moments(circuit, qs)).all_operations() if cirq.VirtualTag() in o.tags and o.untagged.gate == ch)
+                ctx.report_witness('noise:virtual-moments', f'{name}: the channel is not applied after exactly the moments that contain a physical operation (or are empty)',
+                                   dict(rep, impl_out=[repr(np.round(got, 5).tolist())[:800], f'{n_noise} noise operations'], spec_out=[repr(np.round(want_rho, 5).tolist())[:800], f'{len(qs) * sum(expect_noise)} noise operations']))
+                break
+
+
+def check_insertion_model(ctx, cirq, n):
+    """InsertionNoiseModel: for every operation the documented rule picks one key of `ops_added` — among the keys that contain the operation,
+    the most specific one (a gate type that is a subclass, or the same type restricted to given qubits); when neither of two keys is more
+    specific the first one in the mapping wins.  The rule is evaluated here on sets (a key contains an operation iff its gate type is a base
+    of the operation's gate and its qubits, if any, are the operation's qubits) and compared with the operations the model inserts."""
+    from cirq.devices.insertion_noise_model import InsertionNoiseModel
+
+    rng = ctx.substream('insertion')
+    q0, q1 = cirq.LineQubit.range(2)
+    key_pool = [(cirq.XPowGate,), (cirq.XPowGate, q0), (cirq.XPowGate, q1), (cirq.EigenGate,), (cirq.EigenGate, q0), (cirq.Gate,), (cirq.Gate, q0), (cirq.ZPowGate,), (cirq.ZPowGate, q1),
+                (cirq.CZPowGate,), (cirq.CZPowGate, q0, q1), (cirq.CZPowGate, q1, q0), (cirq.Gate, q0, q1), (cirq.HPowGate, q0)]
+
+    def contains(key, op):
+        return isinstance(op.gate, key[0]) and (len(key) == 1 or tuple(key[1:]) == tuple(op.qubits))
+
+    def proper_sub(a, b):  # every operation of key a is one of key b, and not conversely
+        return a != b and issubclass(a[0], b[0]) and (len(b) == 1 or tuple(a[1:]) == tuple(b[1:]))
+
+    for it in range(n):
+        keys = rng.sample(key_pool, rng.randint(2, 5))
+        added = {cirq.OpIdentifier(*k): cirq.bit_flip(0.01 * (j + 1)).on(cirq.LineQubit(10 + j)) for j, k in enumerate(keys)}
+        model = InsertionNoiseModel(ops_added=added, require_physical_tag=False, prepend=rng.random() < 0.3)
+        ops = []
+        for q in (q0, q1):
+            if rng.random() < 0.6:
+                ops.append(rng.choice([cirq.X, cirq.X ** 0.5, cirq.Z, cirq.H, cirq.Y, cirq.T])(q))
+        if not ops or rng.random() < 0.4:
+            ops = [rng.choice([cirq.CZ, cirq.CZ ** 0.5, cirq.CNOT, cirq.ISWAP])(*rng.sample([q0, q1], 2))]
+        moment = cirq.Moment(ops)
+        want = []
+        for op in moment:  # (the model walks the moment in its own order)
+            match = None
+            for k in keys:
+                if contains(k, op) and (match is None or proper_sub(k, match)):
+                    match = k
+            if match is not None:
+                want.append(added[cirq.OpIdentifier(*match)])
+        out = cirq.Circuit(model.noisy_moment(moment, [q0, q1]))
+        got = [o for o in out.all_operations() if o.qubits and o.qubits[0].x >= 10]
+        ctx.count('check', 'noise-model:insertion-rule')
+        ctx.case(['insertion', [repr(cirq.OpIdentifier(*k)) for k in keys], repr(moment)], True)
+        if sorted(map(repr, got)) != sorted(map(repr, want)):
+            ctx.report_witness('noise:insertion-rule', 'InsertionNoiseModel does not insert the operation of the most specific (else first) matching key',
+                               {'lines': [{'keys': [repr(cirq.OpIdentifier(*k)) for k in keys], 'moment': repr(moment)}], 'impl_out': [sorted(map(repr, got))], 'spec_out': [sorted(map(repr, want))],
+                                'theorem_or_correspondence': 'InsertionNoiseModel (documented matching rule)'})
 
 
 def check_noisy_runs(ctx, cirq, n):
